@@ -176,13 +176,9 @@ fn structural_eq(a: &Val, b: &Val) -> Result<bool, Stop> {
         (Val::Concat(..) | Val::Slice(..) | Val::Range(..) | Val::Partial(..) | Val::Expr(_) | Val::SymList(_) | Val::Custom | Val::Bad(_), _)
         | (_, Val::Concat(..) | Val::Slice(..) | Val::Range(..) | Val::Partial(..) | Val::Expr(_) | Val::SymList(_) | Val::Custom | Val::Bad(_)) => return abstain("equality on a value kind outside the model (C11)"),
         (Val::Char(_), Val::Text(_)) | (Val::Text(_), Val::Char(_)) | (Val::Byte(_), Val::Bytes(_)) | (Val::Bytes(_), Val::Byte(_)) => return abstain("char/text equality (C11)"),
-        // a list against a non-list, or any other mix of kinds
-        _ => {
-            if matches!(a, Val::List(_)) || matches!(b, Val::List(_)) {
-                return abstain("list against non-list equality (C11)");
-            }
-            false
-        }
+        // any other mix of kinds (a list against a scalar or a pair included) is unequal; lists against
+        // concatenations / slices were sent to C11 above
+        _ => false,
     })
 }
 
